@@ -248,11 +248,17 @@ pub struct KeyPool {
 }
 
 pub fn key_pool(local: &NodeId, first: u16, count: u16) -> KeyPool {
-    let mut by_distance: BTreeMap<u64, Vec<u16>> = BTreeMap::new();
-    for i in first..first + count {
-        let id = util::node_id(&util::key(i));
-        by_distance.entry(util::log2_distance(local, &id)).or_default().push(i);
+    thread_local! {
+        static IDS: std::cell::RefCell<HashMap<u16, NodeId>> = std::cell::RefCell::new(HashMap::new());
     }
+    let mut by_distance: BTreeMap<u64, Vec<u16>> = BTreeMap::new();
+    IDS.with(|ids| {
+        let mut ids = ids.borrow_mut();
+        for i in first..first + count {
+            let id = *ids.entry(i).or_insert_with(|| util::node_id(&util::key(i)));
+            by_distance.entry(util::log2_distance(local, &id)).or_default().push(i);
+        }
+    });
     KeyPool { by_distance }
 }
 
@@ -591,6 +597,312 @@ pub fn run_c14() {
     }
     if tot.multi_packet == 0 || tot.capped == 0 || tot.max_wire < 1270 {
         mc::machinery("C14 vacuous: no multi-packet / capped / large answers");
+    }
+    rep.finish();
+}
+
+/* ------------------------------------------------------------------------------------ */
+/* C17: external address updated only by a clear majority                                */
+/* ------------------------------------------------------------------------------------ */
+
+#[derive(Clone, Debug, PartialEq, Eq, Hash)]
+pub enum VEv {
+    /// voter i answers its oldest outstanding ping with address x
+    Pong(u8, u8),
+    /// the request of voter i fails (it becomes disconnected)
+    Fail(u8),
+    /// one ping interval passes
+    PingRound,
+    /// longer than the vote duration passes
+    Expire,
+}
+
+#[derive(Clone, Debug)]
+pub struct VCfg {
+    pub dual: bool,
+    pub min: usize,
+    /// per voter: 0 connected outgoing, 1 connected incoming, 2 disconnected (added by the user)
+    pub voters: Vec<u8>,
+    pub addrs: u8,
+    pub with_fail: bool,
+}
+
+const VOTE_DURATION: std::time::Duration = std::time::Duration::from_secs(30);
+const PING_INTERVAL: std::time::Duration = std::time::Duration::from_secs(10);
+
+fn vote_addr(x: u8) -> SocketAddr {
+    match x {
+        0 => util::v4(198, 51, 100, 1, 30303),
+        1 => util::v4(198, 51, 100, 2, 30303),
+        2 => util::v4(198, 51, 100, 1, 30304),
+        _ => "[2001:db8::aa]:30303".parse().unwrap(),
+    }
+}
+
+async fn run_c17_async(cfg: &VCfg, hist: &[VEv]) -> Outcome<VEv> {
+    let listen = if cfg.dual {
+        ListenConfig::DualStack { ipv4: Ipv4Addr::new(10, 0, 0, 50), ipv4_port: 9000, ipv6: "2001:db8::50".parse().unwrap(), ipv6_port: 9000 }
+    } else {
+        ListenConfig::Ipv4 { ip: Ipv4Addr::new(10, 0, 0, 50), port: 9000 }
+    };
+    let min = cfg.min;
+    let mut node = SNode::start(SNodeSpec { keyno: 50, listen, enr: None }, |b| { b.enr_peer_update_min(min); b.vote_duration(VOTE_DURATION); b.ping_interval(PING_INTERVAL); }, true).await;
+    let nv = cfg.voters.len();
+    let mut voters: Vec<(Enr, NodeAddress)> = vec![];
+    let mut violation: Option<Violation> = None;
+    // outstanding service pings per voter (request ids, oldest first)
+    let mut pings: Vec<Vec<v::RequestId>> = vec![vec![]; nv];
+    let mut failed = vec![false; nv];
+    for (i, kind) in cfg.voters.iter().enumerate() {
+        let k = 51 + i as u16;
+        let enr = record(k, 1, false, 2);
+        let addr = NodeAddress { socket_addr: enr.udp4_socket().unwrap().into(), node_id: enr.node_id() };
+        match kind {
+            0 => node.inject(HandlerOut::Established(enr.clone(), addr.socket_addr, v::ConnectionDirection::Outgoing)).await,
+            1 => node.inject(HandlerOut::Established(enr.clone(), addr.socket_addr, v::ConnectionDirection::Incoming)).await,
+            _ => node.discv5.add_enr(enr.clone()).expect("add"),
+        }
+        voters.push((enr, addr));
+        clock::advance(std::time::Duration::from_millis(10));
+    }
+    let absorb = |node: &mut SNode, pings: &mut Vec<Vec<v::RequestId>>, voters: &Vec<(Enr, NodeAddress)>| {
+        let mut other = vec![];
+        for h in node.drain_handler_in() {
+            match h {
+                HandlerIn::Request(contact, req) => {
+                    if let v::RequestBody::Ping { .. } = req.body {
+                        if let Some(i) = voters.iter().position(|(_, a)| a.node_id == contact.node_id()) {
+                            pings[i].push(req.id.clone());
+                            continue;
+                        }
+                    }
+                    other.push(format!("{}", req.body));
+                }
+                o => other.push(format!("{:?}", o).chars().take(60).collect()),
+            }
+        }
+        other
+    };
+    let _ = absorb(&mut node, &mut pings, &voters);
+    let _ = node.drain_events();
+    // reference: voter -> (address index, expiry)
+    // one vote per voter and address family (a dual-stack peer observes us on both)
+    let mut votes: HashMap<(usize, bool), (u8, std::time::Instant)> = HashMap::new();
+    // every PONG sent (voter, address, expiry): in worlds where the node's own policy decides which
+    // PONGs count, only "at least `min` distinct peers sent an unexpired PONG with that address"
+    // is independent of that policy
+    let mut sent: Vec<(usize, u8, std::time::Instant)> = vec![];
+    let mut chain = vec![];
+    let mut prev = None;
+    let mut counters: BTreeMap<&'static str, u64> = BTreeMap::new();
+    let all_eligible = cfg.voters.iter().all(|k| *k == 0) && !cfg.with_fail && !cfg.dual;
+    for (step, ev) in hist.iter().enumerate() {
+        if step + 1 == hist.len() {
+            counters.clear();
+        }
+        clock::advance(std::time::Duration::from_millis(10));
+        let before = node.discv5.local_enr();
+        match ev {
+            VEv::Pong(i, x) => {
+                let id = pings[*i as usize].remove(0);
+                let a = vote_addr(*x);
+                let resp = v::Response { id, body: v::ResponseBody::Pong { enr_seq: 1, ip: a.ip(), port: a.port().try_into().unwrap() } };
+                votes.insert((*i as usize, a.is_ipv4()), (*x, std::time::Instant::now() + VOTE_DURATION));
+                sent.push((*i as usize, *x, std::time::Instant::now() + VOTE_DURATION));
+                node.inject(HandlerOut::Response(voters[*i as usize].1.clone(), Box::new(resp))).await;
+            }
+            VEv::Fail(i) => {
+                let id = pings[*i as usize].remove(0);
+                failed[*i as usize] = true;
+                node.inject(HandlerOut::RequestFailed(id, discv5::RequestError::Timeout)).await;
+            }
+            VEv::PingRound => {
+                clock::advance(PING_INTERVAL);
+                rt::settle().await;
+                rt::settle().await;
+            }
+            VEv::Expire => {
+                clock::advance(VOTE_DURATION + std::time::Duration::from_secs(1));
+                rt::settle().await;
+                rt::settle().await;
+            }
+        }
+        let _ = absorb(&mut node, &mut pings, &voters);
+        let after = node.discv5.local_enr();
+        let events = node.drain_events();
+        let updates: Vec<SocketAddr> = events.iter().filter_map(|e| if let Event::SocketUpdated(s) = e { Some(*s) } else { None }).collect();
+        let now = std::time::Instant::now();
+        let changed4 = before.udp4_socket() != after.udp4_socket();
+        let changed6 = before.udp6_socket() != after.udp6_socket();
+        let mk = |clause: &str, key: &str, detail: String| {
+            let mut v = vio(clause, key, detail);
+            v.replay = json!({"engine":"ssim","check":"C17","cfg":format!("{:?}",cfg),"history":format!("{:?}",&hist[..=step])});
+            v
+        };
+        if changed4 || changed6 {
+            *counters.entry("address_changes").or_insert(0) += 1;
+            let new: SocketAddr = if changed4 { after.udp4_socket().map(Into::into) } else { after.udp6_socket().map(Into::into) }.unwrap_or_else(|| "0.0.0.0:0".parse().unwrap());
+            // tallies of the most recent unexpired votes
+            let mut tally: BTreeMap<u8, usize> = BTreeMap::new();
+            for (_v, (x, exp)) in votes.iter() {
+                if *exp > now {
+                    *tally.entry(*x).or_insert(0) += 1;
+                }
+            }
+            let new_idx = (0..4u8).find(|x| vote_addr(*x) == new);
+            let strict = new_idx.and_then(|x| tally.get(&x).copied()).unwrap_or(0);
+            let lenient = {
+                let mut who: Vec<usize> = sent.iter().filter(|(_, x, exp)| Some(*x) == new_idx && *exp > now).map(|(i, _, _)| *i).collect();
+                who.sort();
+                who.dedup();
+                who.len()
+            };
+            let supporters = if all_eligible { strict } else { lenient };
+            if supporters < cfg.min {
+                violation = Some(mk("the address changes only to the most recent unexpired vote of at least the minimum number of distinct peers", "vote:below-minimum", format!("changed to {new} with {supporters} supporting voters (minimum {})", cfg.min)));
+            } else if all_eligible {
+                // clear-majority margin against every rival of the same address family
+                let threshold = ((supporters as f64) * 0.7).round() as usize;
+                for (x, c) in &tally {
+                    if Some(*x) != new_idx && vote_addr(*x).is_ipv4() == new.is_ipv4() && (*c >= threshold || *c > supporters) {
+                        violation = Some(mk("the new address leads every rival by the clear-majority margin", "vote:no-clear-majority", format!("changed to {new} with {supporters} votes while a rival has {c}")));
+                    }
+                }
+            }
+            if after.seq() <= before.seq() {
+                violation = Some(mk("every change increases the record's sequence number", "vote:seq", format!("{} -> {}", before.seq(), after.seq())));
+            }
+            if !after.verify() {
+                violation = Some(mk("every change keeps the record's signature valid", "vote:signature", "local record does not verify".into()));
+            }
+            if updates != vec![new] {
+                violation = Some(mk("every change is announced as an event", "vote:event", format!("events {:?} for change to {new}", updates)));
+            }
+        } else if !updates.is_empty() {
+            violation = Some(mk("every change is announced as an event (and only changes are)", "vote:spurious-event", format!("{:?}", updates)));
+        }
+        if after != before && !(changed4 || changed6) {
+            violation = Some(mk("harness", "vote:other-change", "local record changed without an address change".into()));
+        }
+        let c = mc::chain(prev, &format!("{:?}/{:?}/{}", after.udp4_socket(), after.udp6_socket(), after.seq()));
+        chain.push(c);
+        prev = Some(c);
+        if violation.is_some() {
+            break;
+        }
+    }
+    let now = std::time::Instant::now();
+    let mut enabled = vec![];
+    if violation.is_none() {
+        for i in 0..nv {
+            if !pings[i].is_empty() {
+                for x in 0..cfg.addrs {
+                    enabled.push(VEv::Pong(i as u8, if x == 2 && cfg.dual { 3 } else { x }));
+                }
+                if cfg.with_fail && !failed[i] {
+                    enabled.push(VEv::Fail(i as u8));
+                }
+            }
+        }
+        enabled.push(VEv::PingRound);
+        if !votes.is_empty() {
+            enabled.push(VEv::Expire);
+        }
+    }
+    let local = node.discv5.local_enr();
+    let vote_view: Vec<(usize, u8, u64)> = {
+        let mut v: Vec<_> = votes.iter().filter(|(_, (_, e))| *e > now).map(|(i, (x, e))| (i.0, *x, e.saturating_duration_since(now).as_secs() / 10)).collect();
+        v.sort();
+        v
+    };
+    let statuses: Vec<(NodeId, bool, bool)> = {
+        let mut s: Vec<_> = node.discv5.table_entries().into_iter().map(|(id, _, st)| (id, st.is_connected(), st.is_incoming())).collect();
+        s.sort_by_key(|x| x.0.raw());
+        s
+    };
+    let fp = mc::fp_of(&(vote_view, pings.iter().map(|p| p.len().min(3)).collect::<Vec<_>>(), local.udp4_socket(), local.udp6_socket(), statuses, failed.clone()));
+    Outcome { fp, enabled: enabled.into_iter().map(|e| (e, 0)).collect(), obs_chain: chain, violation, counters, terminal: Some(format!("{:?}", local.udp4_socket())), steps: hist.len() as u64 }
+}
+
+pub fn debug_c17() {
+    let cfg = VCfg { dual: true, min: 2, voters: vec![0, 1, 0, 1], addrs: 3, with_fail: false };
+    let h = vec![VEv::Pong(0, 0), VEv::PingRound, VEv::Pong(1, 1), VEv::PingRound, VEv::Pong(1, 0), VEv::Pong(0, 1)];
+    for n in 1..=h.len() {
+        let o = rt::run(run_c17_async(&cfg, &h[..n]));
+        eprintln!("{:?} -> terminal {:?} violation {:?}", &h[..n], o.terminal, o.violation.map(|v| v.detail));
+    }
+}
+
+pub fn run_c17() {
+    let mut rep = Report::new("C17", "model_checking");
+    let thorough = rep.thorough();
+    let mut cfgs = vec![
+        VCfg { dual: false, min: 2, voters: vec![0, 0, 0, 0], addrs: 2, with_fail: false },
+        VCfg { dual: false, min: 3, voters: vec![0, 0, 0, 0, 0], addrs: 2, with_fail: false },
+        VCfg { dual: false, min: 2, voters: vec![0, 1, 2, 0], addrs: 2, with_fail: true },
+        VCfg { dual: true, min: 2, voters: vec![0, 1, 0, 1], addrs: 3, with_fail: false },
+    ];
+    if thorough {
+        cfgs.push(VCfg { dual: false, min: 2, voters: vec![0, 0, 0, 0, 0], addrs: 3, with_fail: false });
+        cfgs.push(VCfg { dual: false, min: 3, voters: vec![0, 1, 2, 0, 1], addrs: 2, with_fail: true });
+        cfgs.push(VCfg { dual: true, min: 3, voters: vec![0, 0, 1, 1, 2], addrs: 3, with_fail: true });
+    }
+    let depth = if thorough { 8 } else { 6 };
+    let budget = if thorough { 1500.0 } else { 45.0 };
+    let start = clock::wall();
+    let (mut states, mut trans, mut execs) = (0u64, 0u64, 0u64);
+    let mut counters: BTreeMap<&'static str, u64> = BTreeMap::new();
+    let mut exhaustive = true;
+    let mut caps = vec![];
+    let mut found = vec![];
+    let per = budget / cfgs.len() as f64;
+    for cfg in &cfgs {
+        let remaining = (budget - (clock::wall() - start)).min(per * 1.5);
+        if remaining < 1.0 {
+            exhaustive = false;
+            caps.push("wall budget".to_string());
+            break;
+        }
+        let limits = Limits { max_budget: 0, max_depth: depth, max_states: 2_000_000, wall_s: remaining };
+        let mut vio = vec![];
+        let mut samples = vec![];
+        let stats = mc::explore(&limits, |h: &[VEv]| rt::run(run_c17_async(cfg, h)), |v, _| vio.push(v), |h, _| samples.push(format!("{:?}", h)));
+        states += stats.states;
+        trans += stats.transitions;
+        execs += stats.executions;
+        for (k, v) in stats.counters {
+            *counters.entry(k).or_insert(0) += v;
+        }
+        if !stats.exhaustive {
+            exhaustive = false;
+            caps.push(format!("{:?}: {}", cfg, stats.cap.unwrap_or_default()));
+        }
+        if let Some(s) = samples.into_iter().last() {
+            rep.sample(json!({"cfg":format!("{:?}",cfg),"history":s}));
+        }
+        found.extend(vio);
+    }
+    rep.set("states", states);
+    rep.set("transitions", trans);
+    rep.set("traces_validated_against_impl", execs);
+    rep.set("evaluations", execs);
+    rep.set("distinct_nontrivial", states);
+    rep.set("depth_bound", depth as u64);
+    rep.set("configurations", cfgs.len() as u64);
+    rep.set("exhaustive", exhaustive);
+    if !caps.is_empty() {
+        rep.set("caps", json!(caps));
+    }
+    for (k, v) in &counters {
+        rep.set(&format!("activations_{k}"), *v);
+    }
+    rep.set("rule", "explicit-state BFS over histories of {PONG(voter, address) answering a real service ping, request failure, ping interval passes, vote duration passes} on a real Discv5 with a scripted handler; reference = voter → (address, expiry); oracle evaluated on every step in which the local record's UDP address changes (minimum, clear-majority margin in all-eligible worlds, seq, signature, event)");
+    rep.assume("which PONGs count (connected outgoing peers; others when votes are lacking in dual-stack mode) is implementation policy: the margin clause is only checked in worlds where every voter is eligible; all worlds check the minimum-voters clause, which is monotone in the voter set");
+    for v in found {
+        rep.violation(v);
+    }
+    if counters.get("address_changes").copied().unwrap_or(0) == 0 {
+        mc::machinery("C17 vacuous: the address never changed");
     }
     rep.finish();
 }
